@@ -75,7 +75,17 @@ public:
     cvm::rotation::monitor_crossings = false;
   }
 
-  ~vproxy() override {}
+  // destroy the module while this class's virtual functions (log/error capture) are still in place
+  std::string dtor_errors;
+  ~vproxy() override
+  {
+    if (colvars != NULL) {
+      size_t const n0 = errtxt.size();
+      delete colvars;
+      colvars = NULL;
+      dtor_errors = errtxt.substr(n0);
+    }
+  }
 
   // ---------------- seams ----------------
   int set_unit_system(std::string const &u, bool) override { units = u; return COLVARS_OK; }
